@@ -251,7 +251,7 @@ mod verif_c05 {
     #[kani::unwind(@@UNWIND@@)]
     fn c05_repair_one_item_n2() {
         let base: u32 = kani::any();
-        kani::assume(base >= 3600 && base < u32::MAX - 3600);
+        kani::assume(base < u32::MAX - 3600);
         let mut a = any_state::<2>();
         let b = any_state::<2>();
         kani::assume(all_in_window(&a, base as u64) && all_in_window(&b, base as u64));
@@ -295,7 +295,7 @@ mod verif_c05 {
     #[kani::unwind(@@UNWIND@@)]
     fn c05_repair_step_n2() {
         let base: u32 = kani::any();
-        kani::assume(base >= 3600 && base < u32::MAX - 3600);
+        kani::assume(base < u32::MAX - 3600);
         let mut a = any_state::<2>();
         let b = any_state::<2>();
         kani::assume(all_in_window(&a, base as u64) && all_in_window(&b, base as u64));
@@ -330,7 +330,7 @@ mod verif_c05 {
 
     fn exchange_repairs<const P: usize>() {
         let base: u32 = kani::any();
-        kani::assume(base >= 3600 && base < u32::MAX - 3600);
+        kani::assume(base < u32::MAX - 3600);
         let mut pool = [Op { is_delete: false, key: 0, ts: HLCTimestamp::from_u64(0) }; P];
         let mut i = 0;
         while i < P {
